@@ -139,3 +139,56 @@ def run(facts, rep, fnames=("ckks_multiply", "bgv_multiply"), floor=0):
                        facts.loc(p, x), sample={"function": p, "bounds": [v[2] for v in verdicts]})
     rep.floor(R, "ciphertext-product accumulations", n, floor)
     return n
+
+
+def run_operand_loops(facts, rep, fnames=("bfv_multiply", "ckks_multiply", "bgv_multiply", "bfv_square", "ckks_square", "bgv_square")):
+    """R-TENSOR(loops) [N]: a loop that visits the polynomials of one ciphertext operand (`Y.poly(i)` / `Y.poly_component(i, ..)`
+    with i the loop variable of `for i in 0..X`) runs over THAT operand's size: X resolves to `Y.size()`.  Bounded by the other
+    operand's size, components beyond it are never processed (dropped terms) or the access runs out of range — only for
+    operands of different sizes."""
+    RL = "R-TENSOR(loops)"
+    rep.rule(RL, "every `for i in 0..X` that reads `Y.poly(i)` of a ciphertext operand has X resolving to Y.size()")
+    n = 0
+    for p in sorted(facts.hir):
+        if p.rsplit("::", 1)[-1] not in fnames or "evaluator" not in p:
+            continue
+        body = facts.hir[p]
+        sym = Sym(facts, body)
+        it = facts.items[p]
+        ops = {prm["pat"]["lid"]: prm["pat"]["name"] for prm in it["params"]
+               if prm["pat"].get("k") == "PBind" and "Ciphertext" in prm.get("ty", "")}
+        if len(ops) < 2:
+            continue
+        rep.fn(p)
+        k = 0
+        for lp in walk(body):
+            if lp.get("k") != "For" or lp["pat"].get("k") != "PBind":
+                continue
+            a = sym.loopvars.get(lp["pat"]["lid"])
+            if a is None or a not in sym.ranges:
+                continue
+            hi = sym.ranges[a][1]
+            seen = set()
+            for y in walk(lp["body"]):
+                if y.get("k") == "MCall" and y.get("name") in ("poly", "poly_mut", "poly_component", "poly_component_mut") and y["args"]:
+                    rl = root_local(y["recv"])
+                    lo = local_of(y["args"][0])
+                    if rl and rl[0] in ops and lo and lo[0] == lp["pat"]["lid"] and rl[0] not in seen:
+                        seen.add(rl[0])
+                        n += 1
+                        key = "%s/loop#%d/%s" % (p, k, rl[1])
+                        k += 1
+                        txt = pshow(hi)
+                        raw = " ".join(sorted(atoms_of(hi)))
+                        single = len(hi) == 1 and list(hi.values()) == [1] and len(next(iter(hi))) == 1
+                        own = single and "%s#%d.size()" % (rl[1], rl[0]) in raw
+                        other = [o for l, o in ops.items() if l != rl[0] and single and "%s#%d.size()" % (o, l) in raw]
+                        if own and not other:
+                            rep.ok(RL, key, "`%s.poly(i)` is visited for i below %s" % (rl[1], txt), facts.loc(p, lp), nontrivial=False)
+                        elif other and not own:
+                            rep.violation(RL, key, "the loop reading `%s.poly(i)` runs to the size of `%s` (%s): when the operands have "
+                                          "different sizes, components of `%s` are skipped or read out of range" %
+                                          (rl[1], other[0], txt, rl[1]), facts.loc(p, lp))
+                        else:
+                            rep.unresolved(RL, key, "loop bound %s not recognised as the size of `%s`" % (txt, rl[1]), facts.loc(p, lp))
+    return n
